@@ -42,8 +42,73 @@ def texts(ctx):
     for (lang, text) in out[: ctx.pick(300, 3000)]:
         if text:
             i = rnd.randrange(len(text))
-            extra.append((lang, text[:i] + rnd.choice(["\n", "\t", "é", "😀", " ", "\n\n", " ", "\xa0"]) + text[i:]))
+            extra.append((lang, text[:i] + rnd.choice(["\n", "\t", "\xe9", "\U0001f600", " ", "\n\n", "\u2028", "\xa0"] + scan_streams.SEPARATORS + [scan_streams.BOM]) + text[i:]))
+    # configuration variants of a share of ALL texts: behind a byte order mark, on one line without any newline, both,
+    # a blank replaced by a Unicode separator
+    extra += scan_streams.decorate(ctx, out, 0.2, "c16decor")
+    # the lower rungs of the single-line ladder also go through the model
+    extra += [(lang, text) for (lang, text, d) in long_cases(ctx) if d["chars"] <= MODEL_CHARS]
     return out + extra
+
+
+MODEL_CHARS = 10 ** 4      # longer single lines: direct oracle only (the protocol line of the model grows with every character)
+
+
+def long_cases(ctx):
+    """single-line ladder: 10^2 .. 3.2 * 10^6 characters without a newline (quick: every second rung at the top)"""
+    if getattr(ctx, "_c16long", None) is not None:
+        return ctx._c16long
+    light = scan_streams.rungs(100, 10 ** 4) + ctx.pick([10 ** 5, 10 ** 6, 3162278], scan_streams.rungs(31623, 3162278))
+    heavy = scan_streams.rungs(100, 10 ** 4) + ctx.pick([10 ** 5], scan_streams.rungs(31623, 10 ** 6))
+    ctx._c16long = scan_streams.long_lines(ctx, light, heavy, per_rung=ctx.pick(2, 7), salt="c16long")
+    return ctx._c16long
+
+
+def _long_work(job):
+    """(desc, filter_comments) -> (number of tokens, violated clauses); the text is rebuilt in the worker"""
+    desc, fc = job
+    code = scan_streams.long_text(desc)
+    toks = real_lex(desc["language"], code, bool(fc))
+    return len(toks), oracle(desc["language"], code, bool(fc), toks)
+
+
+def long_failures(ctx, dist=None):
+    jobs = [(d, fc) for (_, _, d) in long_cases(ctx) if d["chars"] > MODEL_CHARS for fc in (1, 0)]
+    jobs.sort(key=lambda j: -j[0]["chars"])
+    fails = []
+    for (d, fc), (n, bad) in zip(jobs, scan_streams.heavy_map(_long_work, jobs)):
+        if dist is not None:
+            dist["tokens"] += n
+        for b in bad[:1]:
+            fails.append({"input": dict(d, filter_comments=fc), "observed": "", "required": b})
+    fails.sort(key=lambda f: f["input"]["chars"])
+    for f in fails[:2]:
+        # smallest size of this shape that still fails (bisection between 0 and the failing rung)
+        d, fc = f["input"], f["input"]["filter_comments"]
+        small = scan_streams.bisect_size(lambda k, d=d, fc=fc: bool(_long_work((dict(d, chars=k), fc))[1]), 0, d["chars"])
+        bad = _long_work((dict(d, chars=small), fc))[1]
+        if bad:
+            f.update({"input": dict(d, chars=small, found_at_chars=d["chars"]), "required": bad[0]})
+    fails.sort(key=lambda f: f["input"]["chars"])
+    return len(jobs), fails
+
+
+def second_call_probe(lang, code, fc):
+    """state probe: lex the same text twice with the SAME lexer object; the first result is mutated in between
+    (positions, values, the list itself); the second result must be what the first one was"""
+    first = real_lex(lang, code, bool(fc))
+    snap = [(t.location.line, t.location.column, str(t.token_type), t.value) for t in first]
+    for t in first:
+        try:
+            t.location.line += 1000
+            t.location.column = 0
+        except AttributeError:
+            pass            # immutable locations are fine
+        t.value = ""
+    del first[:]
+    second = real_lex(lang, code, bool(fc))
+    snap2 = [(t.location.line, t.location.column, str(t.token_type), t.value) for t in second]
+    return [] if snap == snap2 else ["second call of lex on the same lexer object and text differs from the first (first result mutated in between)"]
 
 
 def real_lex(lang, code, fc):
@@ -54,9 +119,10 @@ def real_lex(lang, code, fc):
 
 def line_starts(code):
     st = [0]
-    for i, c in enumerate(code):
-        if c == "\n":
-            st.append(i + 1)
+    i = code.find("\n")
+    while i >= 0:
+        st.append(i + 1)
+        i = code.find("\n", i + 1)
     return st
 
 
@@ -71,7 +137,7 @@ def oracle(lang, code, fc, toks):
         off = st[l - 1] + c - 1
         if code[off:off + len(t.value)] != t.value:
             bad.append("text at (%d,%d) is %r, token is %r" % (l, c, code[off:off + len(t.value)][:20], t.value[:20])); break
-        if "\n" in code[st[l - 1]:off]:
+        if l < len(st) and off >= st[l]:       # a newline lies between the start of line l and the reported position
             bad.append("column %d runs past the end of line %d" % (c, l)); break
         if prev is not None and not (prev[1] <= off and prev[0] < off):
             bad.append("token at offset %d not after the previous one (offset %d, end %d)" % (off, prev[0], prev[1])); break
@@ -127,9 +193,23 @@ def correspond(ctx):
     for (lang, code, bad) in contract_bad[:10]:
         fails.append({"input": {"language": lang, "code": code, "filter_comments": 1}, "observed": "lexer contract violated: %s" % bad,
                       "required": "RawOk / non-empty non-Text tokens (assumption of the theorems)", "kind": "contract"})
+    dist["long_lines"] = {}
+    for (_, _, d) in long_cases(ctx):
+        dist["long_lines"][str(d["chars"])] = dist["long_lines"].get(str(d["chars"]), 0) + 1
+    dist["byte_order_mark"] = sum(1 for (_, c) in cases if c.startswith(scan_streams.BOM))
+    dist["bom_without_newline"] = sum(1 for (_, c) in cases if c.startswith(scan_streams.BOM) and "\n" not in c)
+    dist["separator_characters"] = sum(1 for (_, c) in cases if any(ch in c for ch in scan_streams.SEPARATORS))
+    nlong, lfails = long_failures(ctx, dist)
+    fails += lfails
+    probes = 0
+    for (lang, code, fc) in flat[:: max(1, len(flat) // ctx.pick(400, 4000))]:
+        probes += 1
+        for b in second_call_probe(lang, code, fc):
+            fails.append({"input": {"language": lang, "code": code, "filter_comments": fc, "probe": "second-call"}, "observed": "", "required": b})
+    dist["second_call_probes"] = probes
     return {
-        "evaluations": len(flat), "distinct_nontrivial": len(nontrivial),
-        "rule": "edge-case texts x 7 lexers, canonical programs with and without trailing newline, malformed stream (prefixes, suffixes, edits, token soups), vendored corpus, random single-character insertions (newline, tab, non-ASCII, astral, NBSP, U+2028); each with comments filtered and kept; non-trivial = distinct (language, text, mode) with at least one kept token",
+        "evaluations": len(flat) + nlong + probes, "distinct_nontrivial": len(nontrivial) + nlong,
+        "rule": "edge-case texts x 7 lexers, canonical programs with and without trailing newline, malformed stream (prefixes, suffixes, edits, token soups), vendored corpus, random single-character insertions (newline, tab, non-ASCII, astral, NBSP, U+000B U+000C U+001C-E U+0085 U+2028 U+2029, U+FEFF); a share of all texts behind a byte order mark / on one line without any newline / both / with a separator character; single-line ladder 10^2 .. 3.2*10^6 characters (string literal, block comment followed by code, short statements, one-line function; alone with and without final newline, as second line) - up to 10^4 characters against the model, above by the direct oracle only; each with comments filtered and kept; second-call probe on a sample (same lexer object, first result mutated); non-trivial = distinct (language, text, mode) with at least one kept token",
         "samples": [{"language": l, "code": c[:80], "filter_comments": fc, "model": m[:80]} for (l, c, fc), m in list(zip(flat, model))[40:44]],
         "exhaustive": False, "distribution": dist,
         "disagreements": dis[:50], "oracle_failures": fails[:50],
@@ -138,7 +218,7 @@ def correspond(ctx):
 
 def search(ctx, hints):
     fails = []
-    cases = [(h["language"], h["code"]) for h in hints or [] if h] + texts(ctx)
+    cases = [(h["language"], h["code"]) for h in hints or [] if h and "code" in h] + texts(ctx)
     for (lang, code) in cases:
         for fc in (True, False):
             toks = real_lex(lang, code, fc)
@@ -147,12 +227,16 @@ def search(ctx, hints):
         if len(fails) > 40:
             break
     fails.sort(key=lambda f: len(f["input"]["code"]))
-    return fails[:10]
+    return fails[:10] + long_failures(ctx)[1][:3]
 
 
 def replay(payload):
     inp = payload["input"]
-    toks = real_lex(inp["language"], inp["code"], bool(inp["filter_comments"]))
-    bad = oracle(inp["language"], inp["code"], bool(inp["filter_comments"]), toks)
-    print("%s %r -> %s" % (inp["language"], inp["code"][:60], bad or "ok"))
+    code = scan_streams.long_text(inp) if inp.get("stream") == "long-line" else inp["code"]
+    if inp.get("probe") == "second-call":
+        bad = second_call_probe(inp["language"], code, inp["filter_comments"])
+    else:
+        toks = real_lex(inp["language"], code, bool(inp["filter_comments"]))
+        bad = oracle(inp["language"], code, bool(inp["filter_comments"]), toks)
+    print("%s %r%s -> %s" % (inp["language"], code[:60], " ... (%d characters)" % len(code) if len(code) > 60 else "", bad or "ok"))
     return not bad
